@@ -11,6 +11,9 @@ INT_MAX_DIGITS = 4300
 
 
 class Calls:
+    ALG_MODULES = ('stdnum.luhn', 'stdnum.verhoeff', 'stdnum.damm', 'stdnum.iso7064.mod_11_2', 'stdnum.iso7064.mod_11_10', 'stdnum.iso7064.mod_37_2',
+                   'stdnum.iso7064.mod_37_36', 'stdnum.iso7064.mod_97_10')
+    GEN_NAME = re.compile(r'^_?calc_(isbn10_)?check_digits?(_\w+)?$|^_?checksum$')
     SINK_CALLS = {'builtins.int': 'int', 'datetime.date': 'date', 'datetime.datetime': 'date', 'datetime': 'date', 'builtins.next': 'next',
                   'struct.pack': 'pack', 'datetime.datetime.strptime': 'strptime', 'calendar.monthrange': 'monthrange'}
 
@@ -57,7 +60,7 @@ class Calls:
             if acc is None:
                 env.dead = True
                 return TOP
-            env.store, env.frames = acc.store, acc.frames
+            env.store, env.frames, env.facts = acc.store, acc.frames, acc.facts
             return res
         if isinstance(fn, BoundMethod):
             return self.call_method(fn.obj, fn.name, args, kwargs, node, env)
@@ -97,6 +100,15 @@ class Calls:
                 return RegexV(None, reg=regs[0])
         if key[0] == 'stdnum.util' and key[1] == 'get_soap_client':
             return Opaque('soap')
+        # coverage facts: which characters have been handed to a check digit algorithm on this path
+        if (fn.mod in self.ALG_MODULES and fn.name in ('validate', 'is_valid', 'checksum', 'calc_check_digit', 'calc_check_digits')) \
+                or self.GEN_NAME.match(fn.name):
+            cov = []
+            for a in list(args) + list(kwargs.values()):
+                if isinstance(a, Str):
+                    cov.extend(c for c in a.cells() if not isinstance(c, frozenset))
+            if cov:
+                env.facts = env.facts | {('cov', fn.mod, fn.name) + tuple(cov)}
         if len(ctx.stack) >= MAXDEPTH or ctx.stack.count(key) >= 2:
             ctx.unsup(node, 'depth/recursion limit at %r' % (fn,))
             return TOP
@@ -135,6 +147,13 @@ class Calls:
             ctx.stack.pop()
         outs = [(e, NONE) for e in normal] + [(c[1], c[2]) for c in rets if c[0] == 'return']
         outs = [(e, v) for e, v in outs if not e.dead]
+        if self.GEN_NAME.match(fn.name) and 'check_digit' in fn.name:
+            # characters produced by a generator: comparing them with another generated character checks nothing
+            for e, v in outs:
+                if isinstance(v, Str):
+                    g = tuple(c for c in v.cells() if not isinstance(c, frozenset))
+                    if g:
+                        e.facts = e.facts | {('gen',) + g}
         if multi:
             for e, v in outs:
                 e.frames = e.frames[:-1]
@@ -149,6 +168,7 @@ class Calls:
             val = self.join(val, v, acc)
         depth = len(env.frames) - 1 if env.frames and env.frames[-1] is frame else len(env.frames)
         env.store = acc.store
+        env.facts = acc.facts
         env.frames = acc.frames[:-1]
         env.dead = False
         return val
@@ -556,13 +576,17 @@ class Calls:
             env.dead = True
             return Int()
         a0 = nz
+        argcells = frozenset(c for c in a0.cells() if not isinstance(c, frozenset))
         if base is not None and a0.hi is not None and a0.hi <= 18:
             r = Int(0, base ** a0.hi - 1)
+            r.deps = argcells
             if a0.fixed and base == 10 and all(not isinstance(x, frozenset) for x in a0.pre):
                 n = len(a0.pre)
                 r.form = ({('digit', x): 10 ** (n - 1 - i) for i, x in enumerate(a0.pre)}, 0)
             return r
-        return Int(0, None)
+        r = Int(0, None)
+        r.deps = argcells
+        return r
 
     def int_cls(self, base):
         S = self.ctx.S
